@@ -358,7 +358,9 @@ class ProtocolContext:
         self._lock.acquire()
         assert isinstance(self.is_sending, bool), f"{self}: Coding error"  # mypy hint
 
-        if self._fut is not None and not self._fut.done():
+        if not isinstance(self._state, IsInIdle) or (
+            self._fut is not None and not self._fut.done()
+        ):  # a queued command can only be started from idle
             self._lock.release()
             return
 
